@@ -58,7 +58,7 @@ func encNode(n *Node) map[string]any {
 		}
 		return map[string]any{"k": "dir", "c": c}
 	case "file":
-		return map[string]any{"k": "file", "s": n.S, "x": n.X}
+		return map[string]any{"k": "file", "s": n.S, "x": n.X, "d": hex.EncodeToString(digestOf(n.S))}
 	case "link":
 		return map[string]any{"k": "link", "t": n.T}
 	}
